@@ -30,7 +30,7 @@ func TestC18Build(t *testing.T) {
 		"{logging, size_limit, gzip, headers, request-id} whose numeric options are typed as YAML int (`5`), float (`5.0`) or — invalid — quoted string (`\"5\"`); LoadConfig, then loadbalancer.NewLoadBalancer (always stopped) and "+
 		"plugins.BuildChain as cmd/helios does; oracle: load succeeds; no panic; with int/float typing only, the build succeeds (documented forms are accepted); with a string-typed number either a build error or success is allowed; "+
 		"non-trivial = a YAML-typed plugin option is present")
-	sub.NontrivialFloor(0.60)
+	sub.NontrivialFloor(0.50)
 	sub.Floor("typ=int", 0.08)
 	sub.Floor("typ=float", 0.15)
 	sub.Floor("typ=string", 0.05)
